@@ -279,6 +279,11 @@ fn check_str_roundtrip(size: u8, s: &[u8], acc: &mut Acc) {
 
 /// Compare the decoders on one complete string literal (prefix byte(s) + payload).
 fn check_str_decode(size: u8, b: &[u8], acc: &mut Acc) {
+    check_str_decode_d(size, b, false, acc)
+}
+
+/// `dense`: the input is part of a dense block enumeration (distinct by construction): counted, not fingerprinted
+fn check_str_decode_d(size: u8, b: &[u8], dense: bool, acc: &mut Acc) {
     acc.evaluations += 1;
     let rep = || json!({"kind":"str-decode","size":size,"input":hex(b)});
     let want = qstr::decode(size, b);
@@ -340,8 +345,12 @@ fn check_str_decode(size: u8, b: &[u8], acc: &mut Acc) {
     }
     acc.outcomes.insert(h.finish());
     if b.len() > 1 {
-        h.bytes(b);
-        acc.nontrivial.insert(h.finish());
+        if dense {
+            acc.nontrivial_counted += 1;
+        } else {
+            h.bytes(b);
+            acc.nontrivial.insert(h.finish());
+        }
     }
 }
 
@@ -370,10 +379,10 @@ pub fn run(args: &Args) -> i32 {
     let mut rep = Report::new("C15", args.tier, args.seed, "exploration");
     rep.exhaustive = true;
     rep.rule = format!(
-        "integers: prefix sizes 1..8 x all flag values x boundary values (0, 2^N-2..2^N+1, +127/+128, 2^k-1/2^k/2^k+1 for k<=64) through encode->decode; decode of every first byte x every continuation sequence of length <= {} over {{00,01,7f,80,81,ff}}, 5..18-byte all-ff/80/81 tails with and without terminator, padded (non-minimal) encodings, every truncation. Strings: encode->decode of all byte strings of length <= {} (prefix size 8) and length <= 1 for sizes 2..7, lengths around the 7-bit prefix boundary; decode of all Huffman-flagged payloads of 0..{} bytes; every 1-symbol string followed by every padding of the two byte-aligned lengths in 0..15 bits and every bit pattern; EOS after every symbol and at every byte alignment; EOS (after nothing / one symbol of every code length) followed by every byte value, ff + every byte value, more EOS bits, all-ones strings of 4..10 bytes; non-Huffman literals at prefix boundaries and every truncation. Oracle refimpl::{{qint,qstr,huffman}} (table from quiche's octets crate). Non-trivial = inputs longer than one byte.",
+        "integers: prefix sizes 1..8 x all flag values x boundary values (0, 2^N-2..2^N+1, +127/+128, 2^k-1/2^k/2^k+1 for k<=64) through encode->decode; decode of every first byte x every continuation sequence of length <= {} over {{00,01,7f,80,81,ff}}, 5..18-byte all-ff/80/81 tails with and without terminator, padded (non-minimal) encodings, every truncation. Strings: encode->decode of all byte strings of length <= {} (prefix size 8) and length <= 1 for sizes 2..7, lengths around the 7-bit prefix boundary; decode of ALL Huffman-flagged payloads of 0..{} bytes; every 1-symbol string followed by every padding of the two byte-aligned lengths in 0..15 bits and every bit pattern; EOS after every symbol and at every byte alignment; EOS (after nothing / one symbol of every code length) followed by every byte value, ff + every byte value, more EOS bits, all-ones strings of 4..10 bytes; non-Huffman literals at prefix boundaries and every truncation. Oracle refimpl::{{qint,qstr,huffman}} (table from quiche's octets crate). Non-trivial = inputs longer than one byte.",
         if thorough { 4 } else { 3 },
         if thorough { 3 } else { 2 },
-        if thorough { 3 } else { 2 }
+        if thorough { 4 } else { 3 }
     );
     rep.assumptions = vec![
         "refimpl::huffman passes its self-check (Kraft sum 1, canonical code, EOS = 30 ones, RFC 7541 Appendix C examples); the code table comes from a third code base (octets 0.3.7)".into(),
@@ -388,6 +397,8 @@ pub fn run(args: &Args) -> i32 {
         IntDec(u8, Vec<Vec<u8>>),
         StrRt(u8, Vec<Vec<u8>>),
         StrDec(u8, Vec<Vec<u8>>),
+        /// all Huffman-flagged payloads lead + every combination of `free` further bytes
+        StrDecBlock(Vec<u8>, usize),
     }
     let mut jobs: Vec<Job> = Vec::new();
     for n in 1..=8u8 {
@@ -444,16 +455,14 @@ pub fn run(args: &Args) -> i32 {
     for c in lits.chunks(8192) {
         jobs.push(Job::StrDec(8, c.to_vec()));
     }
-    if thorough {
-        for a in 0..=255u8 {
-            let mut v = Vec::with_capacity(65536);
+    // all 3-byte payloads (and in the thorough tier all 4-byte payloads) as dense blocks
+    for a in 0..=255u8 {
+        if thorough {
             for b in 0..=255u8 {
-                for c in 0..=255u8 {
-                    v.push(huff_literal(8, &[a, b, c]));
-                }
+                jobs.push(Job::StrDecBlock(vec![a, b], 2));
             }
-            jobs.push(Job::StrDec(8, v));
         }
+        jobs.push(Job::StrDecBlock(vec![a], 2));
     }
     // (2) every symbol followed by every padding of both byte-aligned lengths <= 15 and every pattern
     for sym in 0..256usize {
@@ -576,6 +585,19 @@ pub fn run(args: &Args) -> i32 {
         Job::StrDec(size, ls) => {
             for l in ls {
                 check_str_decode(*size, l, acc);
+            }
+        }
+        Job::StrDecBlock(lead, free) => {
+            let mut payload = lead.clone();
+            let base = payload.len();
+            payload.extend(std::iter::repeat(0).take(*free));
+            let mut lit = huff_literal(8, &payload);
+            let off = lit.len() - payload.len();
+            for x in 0..(1usize << (8 * free)) {
+                for k in 0..*free {
+                    lit[off + base + k] = (x >> (8 * (free - 1 - k))) as u8;
+                }
+                check_str_decode_d(8, &lit, true, acc);
             }
         }
     });
